@@ -29,7 +29,8 @@ EXPLANATION = (
     " Third round: the reader's symbol set is evaluated as a constant expression (starred generators over range, f-strings)."
     ' Fourth round: cuts at the annotation underscore of Japanese lexical categories are anchored at the first underscore.'
     ' Fifth round: the Japanese node template on every path; label recovery total over any three categories.'
-    ' Sixth and seventh round: delimiters and atoms of Category.parse, the PTB reader chosen by how the name ends, every line parsed by itself (R20.4), the tree factories store what they are given (R20.1).')
+    ' Sixth and seventh round: delimiters and atoms of Category.parse, the PTB reader chosen by how the name ends, every line parsed by itself (R20.4), the tree factories store what they are given (R20.1).'
+    ' Eighth round: a token keeps every field it was given (R20.1); the dependency pattern of the Japanese bank (R20.3); ja_of writes the word form unchanged (R20.6).')
 TRUSTED = ['CPython ast', 'sa/pysym.py path walker', 'independent category grammar sa/datafiles.py', 'rule table DESIGN.md C20']
 
 RD = 'depccg/tools/reader.py'
